@@ -1,3 +1,4 @@
+#include <string>
 // Rigorous point evaluation of a SCALAR ibex expression with MPFR interval arithmetic (160-bit bounds, outward rounding):
 // an oracle for expressions with elementary functions, independent of the library's own interval arithmetic.
 //   mp_eval(expr, args, point, lo, hi)  ->  true and a double enclosure [lo,hi] of the real value, or false when the
@@ -106,6 +107,21 @@ struct MpEval {
     if (const ExprTanh* u = dynamic_cast<const ExprTanh*>(&e)) return mi_mono_inc(mpfr_tanh, ev(u->expr));
     if (const ExprAcosh* u = dynamic_cast<const ExprAcosh*>(&e)) { MI a = ev(u->expr); if (!a.valid() || !mi_ge(a, 1)) return MI::bad(); return mi_mono_inc(mpfr_acosh, a); }
     if (const ExprAsinh* u = dynamic_cast<const ExprAsinh*>(&e)) return mi_mono_inc(mpfr_asinh, ev(u->expr));
+    // generic operators of src/operators: atanhc(t) = atanh(t)/t (1 at 0; even, increasing with |t|, defined on (-1,1)),
+    // sinc(t) = sin(t)/t (1 at 0): evaluated as quotients away from 0, as the series bounds 1 +- t^2 next to 0
+    if (const ExprGenericUnaryOp* u = dynamic_cast<const ExprGenericUnaryOp*>(&e)) {
+      bool is_at = std::string(u->name) == "atanhc", is_si = std::string(u->name) == "sinc";
+      if (!is_at && !is_si) return MI::bad();
+      MI a = ev(u->expr); if (!a.valid()) return MI::bad();
+      if (is_at && (!mi_gt(a, -1) || !mi_lt(a, 1))) return MI::bad();
+      if (mi_gt(a, 0.0009765625) || mi_lt(a, -0.0009765625)) return mi_div(is_at ? mi_mono_inc(mpfr_atanh, a) : mi_lip(mpfr_sin, a), a);
+      if (mi_gt(a, -0.001953125) && mi_lt(a, 0.001953125)) {   // |t| < 2^-9: 1 <= atanhc(t) <= 1 + t^2, 1 - t^2 <= sinc(t) <= 1
+        MI s = mi_sqr(a); MI one = MI::of(1.0, 1.0);
+        if (is_at) { MI up = mi_add(one, s); MI r2; mpfr_set_d(r2.lo, 1.0, MPFR_RNDD); mpfr_set(r2.hi, up.hi, MPFR_RNDU); return r2; }
+        MI dn = mi_sub(one, s); MI r2; mpfr_set(r2.lo, dn.lo, MPFR_RNDD); mpfr_set_d(r2.hi, 1.0, MPFR_RNDU); return r2;
+      }
+      return MI::bad();
+    }
     if (const ExprAtanh* u = dynamic_cast<const ExprAtanh*>(&e)) { MI a = ev(u->expr); if (!a.valid() || !mi_gt(a, -1) || !mi_lt(a, 1)) return MI::bad(); return mi_mono_inc(mpfr_atanh, a); }
     if (const ExprAbs* u = dynamic_cast<const ExprAbs*>(&e)) return mi_abs(ev(u->expr));
     if (const ExprSign* u = dynamic_cast<const ExprSign*>(&e)) { MI a = ev(u->expr); if (!a.valid()) return MI::bad(); if (mi_gt(a, 0)) return MI::of(1, 1); if (mi_lt(a, 0)) return MI::of(-1, -1); return MI::bad(); }
